@@ -294,3 +294,7 @@ func (tk *Ticker) Reset(d time.Duration) {
 		s.addTimer(tk.vt)
 	}
 }
+
+// RealSleep sleeps in real time (for harness code that must wait for third-party
+// goroutines bound to the wall clock).
+func RealSleep(d time.Duration) { time.Sleep(d) }
